@@ -267,8 +267,10 @@ def run(ctx):
         new = nx[0].targets[0].id
         ifs = [s for s in tr.body if isinstance(s, ast.If) and any(isinstance(x, ast.Raise) for x in s.body)]
         okg = False
-        if ifs and isinstance(ifs[0].test, ast.Compare) and isinstance(ifs[0].test.ops[0], ast.LtE):
+        if ifs and isinstance(ifs[0].test, ast.Compare) and isinstance(ifs[0].test.ops[0], (ast.LtE, ast.GtE)):
             l, r = norm(ifs[0].test.left), norm(ifs[0].test.comparators[0])
+            if isinstance(ifs[0].test.ops[0], ast.GtE):
+                l, r = r, l  # `last >= new` is the mirrored spelling of `new <= last`
             okg = new in l and LAST[side] in r
             # assignment of last_<side> = new after the guard
             asg = [s for s in tr.body if isinstance(s, ast.Assign) and norm(s.targets[0]) == LAST[side] and norm(s.value) == new]
